@@ -586,7 +586,7 @@ def gen_prog(pid, rng, kind, length, force=None):
                 src = rng.choice(["!%du32", "-%di64 as u32", "!!%du32", "*&%du32"]) % rng.randint(1, 200)
                 p.tags.add("sp:low_precedence_initial_literal")
             else:
-                src = rng.choice(["!%s", "%s ^ 3", "%s as u32", "*&%s", "%s + 1", "%s >> 1"]) % src
+                src = rng.choice(["!%s", "%s ^ 3", "%s as u32", "*&%s", "%s + 1", "%s >> 1", "*&mut %s", "%s as u64 as u32", "!!%s"]) % src
             p.tags.add("sp:low_precedence_initial")
         elif rng.random() < 0.15:
             src_cap = g.nid()
